@@ -100,6 +100,13 @@ const PARSERS: &[&str] = &[
     // file + inflated blocks, both patchers); list operations derived from a crafted .lru table
     "phdr", "pblock2", "pblock8", "pentry", "zbsmem", "zbsstream", "zbsstream1k", "zbsobj", "lrutouch", "lruremove",
     "lruevict", "lrumix",
+    // inventory round: public entry points for untrusted bytes that no other name reaches — the second
+    // V1 MIME sniffer, patch-archive payload decoding by ESpec, shmem IPC messages (one payload reader
+    // per message type), archive reads sized by an index entry, index file NAMES, BLTE without keys,
+    // BLTE-wrapped encoding, the byte-level BPSV / ESpec entry points, segment header, compaction
+    // backup, and the accessors that walk a parsed value by offsets stored in it
+    "mimesniff1", "padecomp", "ipcmsg", "archread", "idxname", "blteplain", "encblte", "bpsvbytes", "especbytes", "tvfsuse",
+    "aidxuse", "seghdr", "compbackup", "rootuse", "phdrbuild",
 ];
 
 /// parsers whose `run` response carries a result detail (` d=<token>`) that the model predicts
@@ -351,6 +358,138 @@ fn run_parser(name: &str, d: &[u8], tmp: &std::path::Path) -> bool {
         "pentry" => match d.split_first() {
             Some((ks, rest)) => cascette_formats::patch_index::PatchIndexEntry::parse(rest, *ks).is_some(),
             None => false,
+        },
+        "mimesniff1" => cascette_protocol::v1_mime::is_v1_mime_response(d),
+        // `<spec text> 0x00 <payload>`: the patch archive's compression info applied to patch data
+        "padecomp" => {
+            let cut = d.iter().position(|b| *b == 0).unwrap_or(d.len());
+            let spec = String::from_utf8_lossy(&d[..cut]).to_string();
+            let data = d.get(cut + 1..).unwrap_or(&[]);
+            match cascette_formats::patch_archive::parse_compression_spec(&spec) {
+                Ok(e) => {
+                    let _ = cascette_formats::patch_archive::get_compression_at_offset(&e, data.len() as u64);
+                    cascette_formats::patch_archive::decompress_patch_data(data, &e).is_ok()
+                }
+                Err(_) => false,
+            }
+        }
+        "ipcmsg" => match cascette_client_storage::shmem::IpcMessage::from_bytes(d) {
+            Ok(m) => {
+                let _ = m.to_bytes();
+                true
+            }
+            Err(_) => false,
+        },
+        // `[u32le offset][u32le size][archive bytes]`: what an index entry makes the archive reader do
+        "archread" => {
+            if d.len() < 8 {
+                return false;
+            }
+            let off = u64::from(u32::from_le_bytes([d[0], d[1], d[2], d[3]]));
+            let size = u64::from(u32::from_le_bytes([d[4], d[5], d[6], d[7]]));
+            let mut a = cascette_formats::archive::ArchiveFile::new(Cursor::new(d[8..].to_vec()));
+            let r1 = a.read_at_offset(off, size).is_ok();
+            let r2 = a.read_blte_at_offset(off, size).is_ok();
+            r1 && r2
+        }
+        // the input is a FILE NAME in the index directory (content: a small valid .idx)
+        "idxname" => {
+            let name = String::from_utf8_lossy(d).replace(['/', '\0'], "_");
+            if name.is_empty() || name == "." || name == ".." || name.len() > 200 {
+                return false;
+            }
+            let dir = tmp.join("idxname");
+            let _ = std::fs::remove_dir_all(&dir);
+            std::fs::create_dir_all(&dir).expect("worker temp dir");
+            if std::fs::write(dir.join(&name), seed_idx_min()).is_err() {
+                let _ = std::fs::remove_dir_all(&dir);
+                return false;
+            }
+            let rt = tokio::runtime::Builder::new_current_thread().enable_all().build().expect("runtime");
+            let mut m = cascette_client_storage::index::IndexManager::new(&dir);
+            let ok = rt.block_on(m.load_all()).is_ok();
+            let _ = m.entry_count();
+            let _ = std::fs::remove_dir_all(&dir);
+            ok
+        }
+        "blteplain" => match cascette_formats::blte::BlteFile::parse(d) {
+            Ok(b) => b.decompress().is_ok(),
+            Err(_) => false,
+        },
+        "encblte" => cascette_formats::encoding::EncodingFile::parse_blte(d).is_ok(),
+        "bpsvbytes" => {
+            let a = cascette_formats::bpsv::BpsvReader::from_bytes(d).read_document().is_ok();
+            let b = <cascette_formats::bpsv::BpsvDocument as CascFormat>::parse(d).is_ok();
+            let _ = cascette_formats::bpsv::parse_schema(&String::from_utf8_lossy(d));
+            a || b
+        }
+        "especbytes" => match <cascette_formats::espec::ESpec as CascFormat>::parse(d) {
+            Ok(e) => {
+                let _ = e.is_compressed();
+                let _ = e.to_string();
+                true
+            }
+            Err(_) => false,
+        },
+        "tvfsuse" => match cascette_formats::tvfs::TvfsFile::parse(d) {
+            Ok(t) => {
+                let n = t.enumerate_files().take(100_000).filter(|(_, v)| v.is_some()).count();
+                let _ = t.resolve_path("a");
+                let _ = t.resolve_path("a/f");
+                std::hint::black_box(n);
+                true
+            }
+            Err(_) => false,
+        },
+        "aidxuse" => {
+            let keys: [&[u8]; 5] = [&[0u8; 16], &[1u8; 16], &[3u8; 16], &[0xFFu8; 16], &[5u8; 9]];
+            let a = match cascette_formats::archive::ArchiveIndex::parse(Cursor::new(d)) {
+                Ok(ix) => {
+                    for k in keys {
+                        let _ = ix.find_entry(k);
+                        let _ = ix.find_all_entries(k);
+                    }
+                    let _ = ix.validate();
+                    true
+                }
+                Err(_) => false,
+            };
+            let b = with_file(tmp, "u.index", d, |p| match cascette_formats::archive::ChunkedArchiveIndex::open(p) {
+                Ok(mut ix) => {
+                    for k in keys {
+                        let _ = ix.find_entry(k);
+                    }
+                    true
+                }
+                Err(_) => false,
+            });
+            a || b
+        }
+        "seghdr" => cascette_client_storage::storage::segment::SegmentHeader::from_bytes(d).is_some(),
+        "compbackup" => {
+            let dir = tmp.join("compbackup");
+            let _ = std::fs::remove_dir_all(&dir);
+            std::fs::create_dir_all(&dir).expect("worker temp dir");
+            std::fs::write(dir.join("extract_bu"), d).expect("worker temp write");
+            let r = cascette_client_storage::storage::compaction::ExtractorCompactorBackup::load(&dir);
+            let _ = std::fs::remove_dir_all(&dir);
+            matches!(r, Ok(Some(_)))
+        }
+        "rootuse" => match cascette_formats::root::RootFile::parse(d) {
+            Ok(r) => {
+                let _ = r.total_files();
+                let _ = r.validate();
+                let _ = r.summary();
+                true
+            }
+            Err(_) => false,
+        },
+        "phdrbuild" => match cascette_formats::patch_index::PatchIndexHeader::parse(d) {
+            Ok(h) => {
+                let _ = h.build();
+                true
+            }
+            Err(_) => false,
         },
         "lrutouch" | "lruremove" | "lruevict" | "lrumix" => lru_ops(name, d, tmp),
         "cfgbuild" => cascette_formats::config::BuildConfig::parse(d).is_ok(),
@@ -700,7 +839,7 @@ fn parse_edits(s: &str) -> Option<Vec<Edit>> {
 /// a growing Vec doubles). The LZ4 size prefix (≤ 1 GiB, documented cap) is added per input.
 fn bound_ck(parser: &str) -> (usize, usize) {
     match parser {
-        "blte" | "tvfsblte" | "zbsdiff" | "parchive" | "encchunk" | "zbsmem" | "zbsstream" | "zbsstream1k" | "zbsobj" => (2100, 8 << 20),
+        "blte" | "tvfsblte" | "zbsdiff" | "parchive" | "encchunk" | "zbsmem" | "zbsstream" | "zbsstream1k" | "zbsobj" | "padecomp" | "blteplain" | "encblte" | "archread" => (2100, 8 << 20),
         _ => (64, 8 << 20),
     }
 }
@@ -769,7 +908,8 @@ fn lz4_allow(d: &[u8]) -> usize {
 
 fn allowance(parser: &str, d: &[u8]) -> usize {
     match parser {
-        "blte" | "tvfsblte" => lz4_allow(d),
+        "blte" | "tvfsblte" | "blteplain" | "encblte" => lz4_allow(d),
+        "archread" => lz4_allow(d.get(8..).unwrap_or(&[])),
         _ => 0,
     }
 }
@@ -1192,16 +1332,19 @@ fn dec(d: &[u8], o: usize, w: usize, be: bool) -> u64 {
 /// named count/size/length fields per parser: (offset from start (≥0) or from end (<0), width, big-endian)
 fn fields(parser: &str) -> Vec<(i64, usize, bool)> {
     match parser {
-        "blte" | "tvfsblte" => vec![(4, 4, true), (8, 1, true), (9, 3, true), (12, 4, true), (16, 4, true), (36, 4, true), (40, 4, true)],
+        "archread" => vec![(0, 4, false), (4, 4, false), (12, 4, true), (16, 1, true), (17, 3, true), (20, 4, true)],
+        "ipcmsg" => vec![(0, 4, true), (4, 2, true), (6, 2, true), (8, 4, true), (40, 4, true), (44, 4, true), (64, 4, true)],
+        "compbackup" => vec![(0, 1, false), (1, 4, false)],
+        "blte" | "tvfsblte" | "blteplain" | "encblte" => vec![(4, 4, true), (8, 1, true), (9, 3, true), (12, 4, true), (16, 4, true), (36, 4, true), (40, 4, true)],
         "encoding" => vec![(2, 1, true), (3, 1, true), (4, 1, true), (5, 2, true), (7, 2, true), (9, 4, true), (13, 4, true), (17, 1, true), (18, 4, true)],
-        "aidx" | "aidxc" | "agroup" => vec![(-13, 1, false), (-20, 1, false), (-17, 1, false), (-16, 1, false), (-15, 1, false), (-14, 1, false), (-12, 4, false), (-21, 1, false), (-5, 1, false)],
+        "aidx" | "aidxc" | "agroup" | "aidxuse" => vec![(-13, 1, false), (-20, 1, false), (-17, 1, false), (-16, 1, false), (-15, 1, false), (-14, 1, false), (-12, 4, false), (-21, 1, false), (-5, 1, false)],
         "install" => vec![(2, 1, true), (3, 1, true), (4, 2, true), (6, 4, true)],
         "download" => vec![(2, 1, true), (3, 1, true), (4, 1, true), (5, 4, true), (9, 2, true), (11, 1, true)],
         "size" => vec![(2, 1, true), (3, 1, true), (4, 4, true), (8, 2, true), (10, 4, true), (14, 1, true)],
-        "pindex" => vec![(0, 4, false), (4, 4, false), (8, 4, false), (12, 2, false), (14, 4, false), (14, 1, false), (18, 4, false), (22, 4, false), (26, 4, false), (30, 1, false)],
+        "pindex" | "phdr" | "phdrbuild" => vec![(0, 4, false), (4, 4, false), (8, 4, false), (12, 2, false), (14, 4, false), (14, 1, false), (18, 4, false), (22, 4, false), (26, 4, false), (30, 1, false)],
         "zbsdiff" | "zbsparse" => vec![(8, 8, false), (16, 8, false), (24, 8, false)],
-        "tvfs" => vec![(4, 1, true), (5, 1, true), (6, 1, true), (7, 1, true), (8, 4, true), (12, 4, true), (16, 4, true), (20, 4, true), (24, 4, true), (28, 4, true), (32, 2, true), (34, 4, true), (38, 4, true)],
-        "root" => vec![(0, 4, false), (4, 4, false), (8, 4, false), (12, 4, false), (16, 4, false), (20, 4, false), (24, 4, false), (28, 4, false), (32, 4, false), (16, 1, false), (12, 1, false), (24, 1, false), (28, 1, false)],
+        "tvfs" | "tvfsuse" => vec![(4, 1, true), (5, 1, true), (6, 1, true), (7, 1, true), (8, 4, true), (12, 4, true), (16, 4, true), (20, 4, true), (24, 4, true), (28, 4, true), (32, 2, true), (34, 4, true), (38, 4, true)],
+        "root" | "rootuse" => vec![(0, 4, false), (4, 4, false), (8, 4, false), (12, 4, false), (16, 4, false), (20, 4, false), (24, 4, false), (28, 4, false), (32, 4, false), (16, 1, false), (12, 1, false), (24, 1, false), (28, 1, false)],
         "parchive" => vec![(2, 1, true), (3, 1, true), (4, 1, true), (5, 1, true), (6, 1, true), (7, 2, true), (9, 1, true), (50, 1, true), (42, 4, true), (46, 4, true), (86, 4, true), (46, 4, true)],
         "idx" => vec![(0, 4, false), (8, 2, false), (12, 1, false), (13, 1, false), (14, 1, false), (15, 1, false), (32, 4, false)],
         "shmem" => vec![(0, 1, false), (0x154 + 0x18, 4, false)],
@@ -1311,15 +1454,15 @@ fn load_fixture_seeds(c: &mut Ctx, thorough: bool) -> Vec<(String, String)> {
     let root = std::path::Path::new("/repo/crates/cascette-formats/test_fixtures");
     let mut out = vec![];
     let map: &[(&str, &[&str], &str)] = &[
-        ("patch_index", &["pindex"], ".bin"),
-        ("root", &["root"], ".root"),
+        ("patch_index", &["pindex", "phdr", "phdrbuild"], ".bin"),
+        ("root", &["root", "rootuse"], ".root"),
         ("install", &["install"], ".install"),
-        ("tvfs", &["tvfs"], ".bin"),
-        ("tvfs", &["tvfsblte", "blte"], ".blte"),
+        ("tvfs", &["tvfs", "tvfsuse"], ".bin"),
+        ("tvfs", &["tvfsblte", "blte", "blteplain"], ".blte"),
         ("encoding", &["encoding"], ".bin"),
         ("patch_archive", &["parchive"], ".bin"),
         ("zbsdiff", &["zbsdiff", "zbsparse"], ".zbsdiff"),
-        ("archive", &["aidx", "aidxc"], ".index"),
+        ("archive", &["aidx", "aidxc", "aidxuse"], ".index"),
         ("config", &["cfgbuild", "cfgcdn", "cfgpatch"], "build_config.txt"),
         ("config", &["cfgkeyring"], "keyring_config.txt"),
     ];
@@ -1360,26 +1503,26 @@ fn hand_seeds(c: &mut Ctx) -> Vec<(String, String)> {
     // BLTE
     let mut single_n = b"BLTE\0\0\0\0N".to_vec();
     single_n.extend_from_slice(b"hello world");
-    add(c, &["blte"], "blte_single_n", single_n);
+    add(c, &["blte", "blteplain"], "blte_single_n", single_n);
     let lz: Vec<u8> = {
         use cascette_formats::CascFormat;
         cascette_formats::blte::BlteFile::compress(&vec![7u8; 300], 1 << 20, cascette_formats::blte::CompressionMode::LZ4).ok().and_then(|b| b.build().ok()).unwrap_or_default()
     };
-    add(c, &["blte"], "blte_single_lz4", lz);
+    add(c, &["blte", "blteplain"], "blte_single_lz4", lz);
     let z: Vec<u8> = {
         use cascette_formats::CascFormat;
         cascette_formats::blte::BlteFile::compress(&vec![9u8; 3000], 1000, cascette_formats::blte::CompressionMode::ZLib).ok().and_then(|b| b.build().ok()).unwrap_or_default()
     };
-    add(c, &["blte"], "blte_multi_z", z);
+    add(c, &["blte", "blteplain"], "blte_multi_z", z);
     add(c, &["blte"], "blte_multi_n_std", seed_blte_multi(0x0F, &[b"Nabcdef", b"Nxyz"]));
-    add(c, &["blte"], "blte_multi_n_ext", seed_blte_multi(0x10, &[b"Nabcdef", b"Nxyz"]));
+    add(c, &["blte", "blteplain"], "blte_multi_n_ext", seed_blte_multi(0x10, &[b"Nabcdef", b"Nxyz"]));
     let mut lz4chunk = b"4".to_vec();
     lz4chunk.extend_from_slice(&5u64.to_le_bytes());
     lz4chunk.extend_from_slice(&[0x50, b'a', b'b', b'c', b'd', b'e']);
-    add(c, &["blte"], "blte_multi_lz4", seed_blte_multi(0x0F, &[&lz4chunk, b"Nq"]));
+    add(c, &["blte", "blteplain"], "blte_multi_lz4", seed_blte_multi(0x0F, &[&lz4chunk, b"Nq"]));
     let mut enc_chunk = b"E".to_vec();
     enc_chunk.extend_from_slice(&[8, 1, 2, 3, 4, 5, 6, 7, 8, 4, 9, 9, 9, 9, 0x53, 1, 2, 3]);
-    add(c, &["blte"], "blte_multi_enc", seed_blte_multi(0x0F, &[&enc_chunk]));
+    add(c, &["blte", "blteplain"], "blte_multi_enc", seed_blte_multi(0x0F, &[&enc_chunk]));
     // encrypted chunks naming keys that ARE in the key store (`key_store()`), 4- and 8-byte IV,
     // Salsa20 and ARC4, inner mode N and Z; directly and inside a BLTE file
     {
@@ -1405,6 +1548,18 @@ fn hand_seeds(c: &mut Ctx) -> Vec<(String, String)> {
     }
     // encoding
     add(c, &["encoding"], "enc_min", seed_encoding_min());
+    {
+        // the same file BLTE-wrapped: one raw chunk, and two raw chunks behind a chunk table
+        let e = seed_encoding_min();
+        let mut one = b"BLTE\0\0\0\0N".to_vec();
+        one.extend_from_slice(&e);
+        add(c, &["encblte"], "encblte_single", one);
+        let (a, b) = e.split_at(1000);
+        let (mut ca, mut cb) = (b"N".to_vec(), b"N".to_vec());
+        ca.extend_from_slice(a);
+        cb.extend_from_slice(b);
+        add(c, &["encblte", "blteplain"], "encblte_multi", seed_blte_multi(0x0F, &[&ca, &cb]));
+    }
     // install / download / size
     add(c, &["install"], "install_min", seed_install_min());
     add(c, &["download"], "dl_v1", seed_download_min(1));
@@ -1413,7 +1568,7 @@ fn hand_seeds(c: &mut Ctx) -> Vec<(String, String)> {
     let size_seed: Vec<u8> = SIZE_SEED.to_vec();
     add(c, &["size"], "size_min", size_seed);
     // patch index
-    add(c, &["pindex"], "pindex_min", seed_pindex_min());
+    add(c, &["pindex", "phdr", "phdrbuild"], "pindex_min", seed_pindex_min());
     for ks in [0u8, 1, 9, 15, 17, 32, 255] {
         add(c, &["pindex"], &format!("pindex_ks{ks}"), seed_pindex_ks(ks));
     }
@@ -1429,7 +1584,7 @@ fn hand_seeds(c: &mut Ctx) -> Vec<(String, String)> {
         let mut cur = Cursor::new(Vec::new());
         b.build(&mut cur).map(|_| cur.into_inner()).unwrap_or_default()
     };
-    add(c, &["aidx", "aidxc", "agroup"], "aidx_built", aidx);
+    add(c, &["aidx", "aidxc", "agroup", "aidxuse"], "aidx_built", aidx);
     add(c, &["aidx", "aidxc"], "aidx_zero28", vec![0u8; 28]);
     add(c, &["aidx", "aidxc"], "aidx_zero40", vec![0u8; 40]);
     // tvfs: nested-folder path tables inside the smallest header
@@ -1446,28 +1601,32 @@ fn hand_seeds(c: &mut Ctx) -> Vec<(String, String)> {
         d.extend_from_slice(&be32(0));
         d.extend_from_slice(&[0, 16]); // max depth
         d.extend_from_slice(&path);
-        add(c, &["tvfs"], &format!("tvfs_nest{depth}"), d);
+        if depth == 4 {
+            add(c, &["tvfs", "tvfsuse"], &format!("tvfs_nest{depth}"), d);
+        } else {
+            add(c, &["tvfs"], &format!("tvfs_nest{depth}"), d);
+        }
     }
     // text formats
-    add(c, &["bpsv", "buildinfo"], "bpsv_min", b"Region!STRING:0|BuildId!DEC:4|Key!HEX:16\n## seqn = 12\nus|123|00112233445566778899aabbccddeeff\n".to_vec());
+    add(c, &["bpsv", "buildinfo", "bpsvbytes"], "bpsv_min", b"Region!STRING:0|BuildId!DEC:4|Key!HEX:16\n## seqn = 12\nus|123|00112233445566778899aabbccddeeff\n".to_vec());
     add(c, &["buildinfo"], "buildinfo_min", b"Branch!STRING:0|Active!DEC:1|Build Key!HEX:16|CDN Key!HEX:16|Install Key!HEX:16|IM Size!DEC:4|CDN Path!STRING:0|CDN Hosts!STRING:0|CDN Servers!STRING:0|Tags!STRING:0|Armadillo!STRING:0|Last Activated!STRING:0|Version!STRING:0|Product!STRING:0\nus|1|00112233445566778899aabbccddeeff|00112233445566778899aabbccddeeff|00112233445566778899aabbccddeeff|5|tpr/wow|a.b c.d|http://a/?maxhosts=4|Windows x86_64 US? enUS speech?:Windows x86_64 US? enUS text?||2024-01-01T00:00:00Z|1.15.7.60000|wow_classic_era\n".to_vec());
-    add(c, &["espec"], "espec_block", b"b:{164=z,16K*565=z:{6,mpq},1M*=n}".to_vec());
-    add(c, &["espec"], "espec_enc", b"e:{237DA26C65073F42,06FC152E,z}".to_vec());
+    add(c, &["espec", "especbytes"], "espec_block", b"b:{164=z,16K*565=z:{6,mpq},1M*=n}".to_vec());
+    add(c, &["espec", "especbytes"], "espec_enc", b"e:{237DA26C65073F42,06FC152E,z}".to_vec());
     add(c, &["espec"], "espec_nest", b"b:{1M*=b:{1K*=b:{256*=z}}}".to_vec());
     add(c, &["cfgproduct"], "product_min", br#"{"all":{"config":{"product":"wow","supported_locales":["enUS"]}},"platform":{"win":{"config":{"binaries":{"game":{"relative_path":"Wow.exe"}}}}}}"#.to_vec());
     add(c, &["cfgcdn"], "cdn_min", b"# CDN Configuration\n\narchives = 0017a402f556fbece46c38dc431a2c9b 00b79cc0eebdd26437c7e92e57ac7f5c\narchives-index-size = 173068 53588\narchive-group = 00872b40344ef1a3dac4aff09588603c\nfile-index = 00872b40344ef1a3dac4aff09588603c\nfile-index-size = 41228\n".to_vec());
     add(c, &["cfgpatch"], "patchcfg_min", b"# Patch Configuration\n\npatch = 00112233445566778899aabbccddeeff\npatch-size = 1234\npatch-entry = encoding 00112233445566778899aabbccddeeff 10 00112233445566778899aabbccddeeff 20 b:{*=z} 00112233445566778899aabbccddeeff 5 00112233445566778899aabbccddeeff 7\n".to_vec());
     let mime = b"MIME-Version: 1.0\r\nContent-Type: multipart/alternative; boundary=\"abc\"\r\n\r\n--abc\r\nContent-Type: text/plain\r\nContent-Disposition: version\r\n\r\nRegion!STRING:0|BuildId!DEC:4\n## seqn = 1\nus|5\n\r\n--abc--\r\nChecksum: 0123456789abcdef0123456789abcdef0123456789abcdef0123456789abcdef\r\n".to_vec();
-    add(c, &["mime", "mimebpsv", "mimesniff", "mimev1"], "mime_min", mime);
+    add(c, &["mime", "mimebpsv", "mimesniff", "mimesniff1", "mimev1"], "mime_min", mime);
     // complete replies whose epilogue carries the RIGHT checksum (the MIME body behind it is reached):
     // multipart and plain, CRLF / LF / no terminator
-    add(c, &["mime", "mimebpsv", "mimesniff", "mimev1"], "mime_ok_multi", mime_with_checksum(MIME_MULTIPART, b"\r\n"));
-    add(c, &["mime", "mimebpsv", "mimesniff", "mimev1"], "mime_ok_plain", mime_with_checksum(MIME_PLAIN, b"\n"));
+    add(c, &["mime", "mimebpsv", "mimesniff", "mimesniff1", "mimev1"], "mime_ok_multi", mime_with_checksum(MIME_MULTIPART, b"\r\n"));
+    add(c, &["mime", "mimebpsv", "mimesniff", "mimesniff1", "mimev1"], "mime_ok_plain", mime_with_checksum(MIME_PLAIN, b"\n"));
     add(c, &["mime", "mimebpsv"], "mime_ok_noterm", mime_with_checksum(MIME_PLAIN, b""));
     // a multi-byte character straddling byte 512 (the repaired [..512] site)
     let mut m2 = vec![b'a'; 511];
     m2.extend_from_slice("é content-type: multipart/mixed".as_bytes());
-    add(c, &["mime", "mimebpsv", "mimesniff"], "mime_utf8_512", m2);
+    add(c, &["mime", "mimebpsv", "mimesniff", "mimesniff1", "mimev1"], "mime_utf8_512", m2);
     // client storage
     add(c, &["idx"], "idx_min", seed_idx_min());
     add(c, &["updsec"], "updsec_zero", vec![0u8; 1024]);
@@ -1492,7 +1651,7 @@ fn hand_seeds(c: &mut Ctx) -> Vec<(String, String)> {
     }
     // root: hand-framed V1 / classic V2 / extended V3, V4 (header 20 and 24 bytes)
     for v in 1..=5u8 {
-        add(c, &["root"], &format!("root_v{v}"), seed_root(v));
+        add(c, &["root", "rootuse"], &format!("root_v{v}"), seed_root(v));
     }
     // patch archive: builder output and a hand-framed header with the extended (encoding info) header
     {
@@ -1516,6 +1675,78 @@ fn hand_seeds(c: &mut Ctx) -> Vec<(String, String)> {
         d.extend_from_slice(&be32(off));
         d.push(0); // sentinel
         add(c, &["parchive"], "pa_ext", d);
+    }
+    // inventory round: the entry points no other seed reaches
+    {
+        // patch-archive payloads: `<compression info> 0x00 <data>`
+        let zl = cascette_formats::zbsdiff::compress_zlib(b"hello hello hello").unwrap_or_default();
+        let mut z = b"z\0".to_vec();
+        z.extend_from_slice(&zl);
+        add(c, &["padecomp"], "pad_z", z);
+        add(c, &["padecomp"], "pad_n", b"n\0hello".to_vec());
+        add(c, &["padecomp"], "pad_block", b"b:{2=n,*=n}\0abcdef".to_vec());
+        let mut bz = b"{2=n,*=z}\0ab".to_vec();
+        bz.extend_from_slice(&zl);
+        add(c, &["padecomp"], "pad_braces", bz);
+        add(c, &["padecomp"], "pad_count", b"b:{1=n,2*2=n,16K*=n}\0abcdefghij".to_vec());
+        // shmem IPC messages: one per message type (payload reader selected by the type field)
+        let ipc = |ty: u16, payload: &[u8]| -> Vec<u8> {
+            let mut d = 0x4341_5343u32.to_be_bytes().to_vec();
+            d.extend_from_slice(&1u16.to_be_bytes());
+            d.extend_from_slice(&ty.to_be_bytes());
+            d.extend_from_slice(&(payload.len() as u32).to_be_bytes());
+            d.extend_from_slice(&7u64.to_be_bytes());
+            d.extend_from_slice(&1_700_000_000u64.to_be_bytes());
+            d.extend_from_slice(&[0u8; 8]);
+            d.extend_from_slice(payload);
+            d
+        };
+        let mut p1 = vec![0, 1, 0, 0];
+        p1.extend_from_slice(&7u32.to_be_bytes());
+        p1.extend_from_slice(b"a/b.txt");
+        add(c, &["ipcmsg"], "ipc_file_request", ipc(1, &p1));
+        let mut p2 = vec![0, 0, 0, 0];
+        p2.extend_from_slice(&5u32.to_be_bytes());
+        p2.extend_from_slice(&5u32.to_be_bytes());
+        p2.extend_from_slice(&[0x33; 16]);
+        p2.extend_from_slice(b"hello");
+        add(c, &["ipcmsg"], "ipc_file_response", ipc(2, &p2));
+        let mut p3 = vec![1, 0, 0, 0];
+        p3.extend_from_slice(&3u32.to_be_bytes());
+        p3.extend_from_slice(b"wow");
+        add(c, &["ipcmsg"], "ipc_status_request", ipc(3, &p3));
+        let mut p4 = vec![0, 1, 0, 0];
+        p4.extend_from_slice(&1000u64.to_be_bytes());
+        p4.extend_from_slice(&10u64.to_be_bytes());
+        p4.extend_from_slice(&3u32.to_be_bytes());
+        p4.extend_from_slice(&60u32.to_be_bytes());
+        p4.extend_from_slice(&2u32.to_be_bytes());
+        p4.extend_from_slice(b"ok");
+        add(c, &["ipcmsg"], "ipc_status_response", ipc(4, &p4));
+        add(c, &["ipcmsg"], "ipc_keepalive", ipc(5, &[0u8; 24]));
+        add(c, &["ipcmsg"], "ipc_error", ipc(0xFFFF, b"raw bytes"));
+        // archive reads as an index entry asks for them: [offset][size][archive = one BLTE file]
+        let mut ar = 0u32.to_le_bytes().to_vec();
+        let blte = seed_blte_multi(0x0F, &[b"Nabcdef", b"Nxyz"]);
+        ar.extend_from_slice(&(blte.len() as u32).to_le_bytes());
+        ar.extend_from_slice(&blte);
+        add(c, &["archread"], "archread_blte", ar);
+        // names in the index directory
+        add(c, &["idxname"], "idxname_ok", b"0100000001.idx".to_vec());
+        add(c, &["idxname"], "idxname_upper", b"0A0000000B.IDX".to_vec());
+        add(c, &["idxname"], "idxname_utf8_2", "0\u{e9}0000000.idx".as_bytes().to_vec());
+        add(c, &["idxname"], "idxname_utf8_3", "\u{20ac}0000000.idx".as_bytes().to_vec());
+        add(c, &["idxname"], "idxname_utf8_mid", "010000\u{e9}00.idx".as_bytes().to_vec());
+        add(c, &["idxname"], "idxname_utf8_4", "0\u{1F600}00000.idx".as_bytes().to_vec());
+        // segment header (16 local headers), compaction backup
+        add(c, &["seghdr"], "seghdr_11", vec![0x11u8; 480]);
+        add(c, &["seghdr"], "seghdr_zero", vec![0u8; 480]);
+        let mut bu = vec![1u8];
+        bu.extend_from_slice(&3u32.to_le_bytes());
+        for v in [5u32, 6, 0xFFFF_FFFF] {
+            bu.extend_from_slice(&v.to_le_bytes());
+        }
+        add(c, &["compbackup"], "compbackup_3", bu);
     }
     // ESpec grammar: valid and invalid forms of every production, nesting at the limit
     for (i, e) in ESPEC_FORMS.iter().enumerate() {
@@ -2434,6 +2665,7 @@ fn pindex_struct_cases(c: &mut Ctx, rng: &mut Rng, thorough: bool) {
                 let mut d = pindex_file(&extra, &[(2, good2.clone())]);
                 d[12..14].copy_from_slice(&xl.to_le_bytes());
                 c.case("phdr", "empty", &[Edit::App(d.clone())], "pindex-extra-header");
+                c.case("phdrbuild", "empty", &[Edit::App(d.clone())], "pindex-extra-header");
                 c.case("pindex", "empty", &[Edit::App(d)], "pindex-extra-header");
             }
         }
@@ -2559,6 +2791,81 @@ fn zbs_struct_cases(c: &mut Ctx, rng: &mut Rng, thorough: bool) {
             .collect();
         let (ds, xs, oa) = if rng.chance(1, 6) { (rng.range(0, 2) as i64 - 1, rng.range(0, 2) as i64 - 1, rng.range(0, 2) as i64 - 1) } else { (0, 0, 0) };
         run(c, &old, &entries, ds, xs, oa, "zbs-ctl-random");
+    }
+}
+
+/// inventory round, structure-aware families for the entry points added there
+fn inventory_cases(c: &mut Ctx, thorough: bool) {
+    c.seed("empty", vec![]);
+    // 1. both V1 MIME sniffers look at "the first 512 bytes" of a lossily decoded reply: a multi-byte
+    //    character (2 / 3 / 4 bytes) or an invalid byte (decoded to a 3-byte U+FFFD) at every offset
+    //    around byte 512, behind ASCII and behind other multi-byte characters
+    let chars: [&[u8]; 5] = ["\u{e9}".as_bytes(), "\u{20ac}".as_bytes(), "\u{1F600}".as_bytes(), &[0xFF], &[0xC3]];
+    for pre in 505..=514usize {
+        for ch in chars {
+            for lead in [&b"a"[..], "\u{e9}".as_bytes(), &[0xFF]] {
+                let mut d: Vec<u8> = lead.iter().cycle().take(pre / lead.len() * lead.len()).copied().collect();
+                d.resize(pre, b'a');
+                for _ in 0..3 {
+                    d.extend_from_slice(ch);
+                }
+                d.extend_from_slice(b" Content-Type: multipart/mixed; boundary=x\r\n\r\n--x--\r\n");
+                for p in ["mimesniff", "mimesniff1", "mime", "mimev1"] {
+                    c.case(p, "empty", &[Edit::App(d.clone())], "mime-utf8-boundary");
+                }
+            }
+        }
+    }
+    // 2. patch-archive payload decoding: chunk sizes and counts of the compression info at the u32 /
+    //    u64 limits (the chunk end is offset + size * count), in every position of the table, on
+    //    payloads of 0..5 bytes
+    let lim: [&str; 12] = ["0", "1", "2", "4294967295", "4294967296", "4294967297", "9223372036854775807", "9223372036854775808", "18446744073709551615", "16K", "4194304K", "17592186044415M"];
+    let counts: [&str; 7] = ["", "*1", "*2", "*4294967295", "*4294967296", "*0", "*"];
+    for size in lim {
+        for count in counts {
+            if size.ends_with(['K', 'M']) && (count == "*4294967296") && !thorough {
+                continue;
+            }
+            for form in 0..4 {
+                let spec = match form {
+                    0 => format!("b:{{{size}{count}=n,*=n}}"),
+                    1 => format!("b:{{1=n,{size}{count}=n}}"),
+                    2 => format!("{{1=n,{size}{count}=n,{size}{count}=z,*=n}}"),
+                    _ => format!("b:{{{size}{count}=n}}"),
+                };
+                for dl in [0usize, 1, 2, 5] {
+                    let mut d = spec.as_bytes().to_vec();
+                    d.push(0);
+                    d.extend((0..dl).map(|i| b'a' + i as u8));
+                    c.case("padecomp", "empty", &[Edit::App(d)], "padecomp-sizes");
+                }
+            }
+        }
+    }
+    // 3. shmem IPC: every message type value around the known ones x every seed payload (the payload
+    //    reader is chosen by the type, the bytes behind it belong to another type)
+    for sid in ["ipc_file_request", "ipc_file_response", "ipc_status_request", "ipc_status_response", "ipc_keepalive", "ipc_error"] {
+        for ty in [0u16, 1, 2, 3, 4, 5, 6, 7, 0x00FF, 0x0100, 0x7FFF, 0x8000, 0xFFFE, 0xFFFF] {
+            c.case("ipcmsg", sid, &[Edit::Put(6, ty.to_be_bytes().to_vec())], "ipc-type");
+            // and a length field of the payload that says "4 GiB follow" / "16 MiB follow"
+            for (off, v) in [(40usize, 0xFFFF_FFFFu32), (40, 0x0100_0000), (44, 0xFFFF_FFFF), (64, 0xFFFF_FFFF), (8, 0x0100_0000), (8, 0x0100_0001)] {
+                c.case("ipcmsg", sid, &[Edit::Put(6, ty.to_be_bytes().to_vec()), Edit::Put(off, v.to_be_bytes().to_vec())], "ipc-type-length");
+            }
+        }
+    }
+    // 4. names in the index directory: 14 BYTES ending in .idx with a 2 / 3 / 4-byte character at every
+    //    position of the ten "digits"
+    for ch in ["\u{e9}", "\u{20ac}", "\u{1F600}"] {
+        for pos in 0..=(10 - ch.len()) {
+            let mut n = "0".repeat(pos);
+            n.push_str(ch);
+            n.push_str(&"1".repeat(10 - pos - ch.len()));
+            for ext in [".idx", ".IDX", ".iDx"] {
+                let mut name = n.clone();
+                name.push_str(ext);
+                c.case("idxname", "empty", &[Edit::App(name.into_bytes())], "idxname-utf8");
+            }
+        }
     }
 }
 
@@ -2712,7 +3019,7 @@ fn main() {
         let len = c.seeds[sid].len();
         let tmax = if thorough { 96 } else { 40 };
         let tail = if thorough { 160 } else { 96 };
-        let every = matches!(p.as_str(), "mime" | "mimebpsv" | "mimesniff" | "mimev1" | "encchunk") || sid.starts_with("blte_enc_");
+        let every = matches!(p.as_str(), "mime" | "mimebpsv" | "mimesniff" | "mimesniff1" | "mimev1" | "encchunk" | "ipcmsg" | "padecomp" | "idxname") || sid.starts_with("blte_enc_");
         if len <= 4096 {
             for n in 0..len {
                 if n < tmax || n + tail >= len || every {
@@ -2750,6 +3057,7 @@ fn main() {
     // 3g. patch index block parsers by type / order / key size; ZBSDIFF patches with adversarial control entries
     pindex_struct_cases(&mut c, &mut rng, thorough);
     zbs_struct_cases(&mut c, &mut rng, thorough);
+    inventory_cases(&mut c, thorough);
     enc_hdr_cases(&mut c, thorough);
     // 3c. V1 MIME epilogue lines of every length; 3d. encrypted-chunk headers with known key names
     mime_epilogue_cases(&mut c, thorough);
